@@ -160,3 +160,9 @@ Theorem C08_task_mode_open_refuted :
   /\ task_line 1024 [mkrec ENTRY 0 10 1000; mkrec ENTRY 1 20 5000] = (0, 0).
 Proof. exact task_mode_open_refuted. Qed.
 Print Assumptions C08_task_mode_open_refuted.
+
+(* report --diff (no colours): the sign of a time difference is inverted (an increase is printed with "-") *)
+Theorem C08_diff_sign_refuted :
+  show_dtime 100 300 = Some (true, 0, 200, 0) /\ show_dtime 300 100 = Some (false, 0, 200, 0).
+Proof. exact diff_sign_refuted. Qed.
+Print Assumptions C08_diff_sign_refuted.
